@@ -176,3 +176,136 @@ def norm_tokens(toks):
         else:
             out.append([cls, text])
     return out
+
+
+def canon_stream(css):
+    """tokens with numbers spelled canonically everywhere and colours canonically in declaration values"""
+    toks = tokenize(css)
+    # mark value positions: from a colon to the next semi / } provided no { intervenes and we are inside a block
+    n = len(toks)
+    invalue = [False] * n
+    depth = 0
+    i = 0
+    while i < n:
+        c = toks[i][0]
+        if c == "{":
+            depth += 1
+        elif c == "}":
+            depth -= 1
+        elif c == "colon" and depth > 0:
+            j = i + 1
+            while j < n and toks[j][0] not in ("semi", "}", "{"):
+                j += 1
+            if j >= n or toks[j][0] != "{":
+                for k in range(i + 1, min(j, n)):
+                    invalue[k] = True
+                i = j
+                continue
+        i += 1
+    out = []
+    for k, (cls, text) in enumerate(toks):
+        if cls in ("num", "dim", "pct"):
+            out.append([cls, _numcanon(text)])
+        elif invalue[k] and canon_color(cls, text):
+            out.append(["color", canon_color(cls, text)])
+        else:
+            out.append([cls, text])
+    return out
+
+
+def _hsl_to_rgb(h, s, l):
+    from fractions import Fraction as Fr
+    h = Fr(h) % 360
+    s = min(max(Fr(s) / 100, 0), 1)
+    l = min(max(Fr(l) / 100, 0), 1)
+    m2 = l * (s + 1) if l <= Fr(1, 2) else l + s - l * s
+    m1 = l * 2 - m2
+
+    def hue(t):
+        t = t % 1
+        if t < Fr(1, 6):
+            return m1 + (m2 - m1) * t * 6
+        if t < Fr(1, 2):
+            return m2
+        if t < Fr(2, 3):
+            return m1 + (m2 - m1) * (Fr(2, 3) - t) * 6
+        return m1
+    hh = h / 360
+
+    def rnd(x):
+        import math
+        return int(math.floor(x * 255 + Fr(1, 2)))
+    return rnd(hue(hh + Fr(1, 3))), rnd(hue(hh)), rnd(hue(hh - Fr(1, 3)))
+
+
+def _fold_color_functions(toks):
+    """rgb()/rgba()/hsl()/hsla() calls over plain numbers and #rgba/#rrggbbaa -> one 'color' token"""
+    from fractions import Fraction as Fr
+    out = []
+    i = 0
+    n = len(toks)
+    while i < n:
+        cls, text = toks[i]
+        if cls == "func" and text.lower() in ("rgb", "rgba", "hsl", "hsla") and i + 1 < n and toks[i + 1][0] == "(":
+            j = i + 2
+            args = []
+            ok = True
+            while j < n and toks[j][0] != ")":
+                if toks[j][0] in ("num", "dim", "pct"):
+                    args.append(toks[j][1])
+                elif toks[j][0] in ("ws", "comma") or (toks[j][0] == "delim" and toks[j][1] == "/"):
+                    pass
+                else:
+                    ok = False
+                j += 1
+            if ok and j < n and len(args) in (3, 4):
+                try:
+                    def val(t):
+                        m = NUM.match(t)
+                        return Fr(m.group(0)), t[m.end():]
+                    a = Fr(1)
+                    if len(args) == 4:
+                        av, au = val(args[3])
+                        a = av / 100 if au == "%" else av
+                        a = min(max(a, 0), 1)
+                    if text.lower().startswith("rgb"):
+                        ch = []
+                        for t in args[:3]:
+                            v, u = val(t)
+                            if u == "%":
+                                v = v * 255 / 100
+                            import math
+                            ch.append(int(min(max(math.floor(v + Fr(1, 2)), 0), 255)))
+                        r, g, b = ch
+                    else:
+                        hv, hu = val(args[0])
+                        r, g, b = _hsl_to_rgb(hv, val(args[1])[0], val(args[2])[0])
+                    if a == 1:
+                        out.append(["color", "#%02x%02x%02x" % (r, g, b)])
+                    else:
+                        out.append(["color", "rgba(%d,%d,%d,%s)" % (r, g, b, _numcanon("%.10f" % float(a)))])
+                    i = j + 1
+                    continue
+                except Exception:
+                    pass
+        if cls == "hash" and re.fullmatch(r"#[0-9a-fA-F]{8}|#[0-9a-fA-F]{4}", text):
+            h = text[1:].lower()
+            if len(h) == 4:
+                h = "".join(ch * 2 for ch in h)
+            r, g, b, al = (int(h[k:k + 2], 16) for k in (0, 2, 4, 6))
+            if al == 255:
+                out.append(["color", "#%02x%02x%02x" % (r, g, b)])
+            else:
+                out.append(["color", "rgba(%d,%d,%d,%s)" % (r, g, b, _numcanon("%.10f" % (al / 255.0)))])
+            i += 1
+            continue
+        out.append([cls, text])
+        i += 1
+    return out
+
+
+_canon_stream0 = canon_stream
+
+
+def canon_stream(css):  # noqa: F811
+    return _fold_color_functions(_canon_stream0(css))
